@@ -362,3 +362,44 @@ func (g G) Any() string {
 		return g.FaultLike()
 	}
 }
+
+// ExprFamily returns an input of family f whose bulk sits inside ONE top-level
+// expression, together with a lower bound on the number of (nested) expressions
+// it contains. The parser documents that it polls the context at the start of
+// every expression it parses, recursively.
+func ExprFamily(f, n int) (sql string, exprs int) {
+	var sb strings.Builder
+	switch f % 4 {
+	case 0: // IN list
+		sb.WriteString("SELECT id FROM t WHERE id IN (")
+		for i := 0; i < n; i++ {
+			if i > 0 {
+				sb.WriteString(", ")
+			}
+			fmt.Fprintf(&sb, "%d", i)
+		}
+		sb.WriteString(")")
+	case 1: // function arguments
+		sb.WriteString("SELECT COALESCE(")
+		for i := 0; i < n; i++ {
+			if i > 0 {
+				sb.WriteString(", ")
+			}
+			fmt.Fprintf(&sb, "c%d", i)
+		}
+		sb.WriteString(") FROM t")
+	case 2: // CASE branches
+		sb.WriteString("SELECT CASE")
+		for i := 0; i < n/2+1; i++ {
+			fmt.Fprintf(&sb, " WHEN a = %d THEN %d", i, i)
+		}
+		sb.WriteString(" END FROM t")
+	default: // sub-query with many select items inside a predicate
+		sb.WriteString("SELECT id FROM t WHERE EXISTS (SELECT c0")
+		for i := 1; i < n; i++ {
+			fmt.Fprintf(&sb, ", c%d", i)
+		}
+		sb.WriteString(" FROM u)")
+	}
+	return sb.String(), n
+}
